@@ -803,7 +803,12 @@ pub fn build_case(pat: &str, rng: &mut Rng, o: &BuildOpts) -> Option<Built> {
                     }
                 };
                 tries += 1;
-                // keep the frame away from the instruction's own bytes
+                // popped frames stay away from the instruction's own bytes (the patch would replace
+                // the instruction); pushed frames may land on it (the instruction has been fetched)
+                if pushes && tries == 1 && rng.chance(1, 24) && crate::refmodel::mem::locate(pc).map(|l| l.0) == crate::refmodel::mem::locate(fa).map(|l| l.0) {
+                    fa = (pc + 2 * rng.below(6) as u32).wrapping_sub(4) & 0xfffffe;
+                    break;
+                }
                 if tries > 8 || fa + 4 <= pc || fa >= pc + 16 {
                     break;
                 }
@@ -826,6 +831,10 @@ pub fn build_case(pat: &str, rng: &mut Rng, o: &BuildOpts) -> Option<Built> {
         }
     }
     maybe_bus(rng, &mut c);
+    // bit 0 of PC set (left behind by an earlier jump/return through an odd value): fetch ignores it
+    if !is_flow && rng.chance(1, 12) {
+        c.pc |= 1;
+    }
     Some(Built { case: c, insn, ea, region, sp_region, data: dval })
 }
 
